@@ -180,7 +180,7 @@ func evalC12parsed(src []byte, cfg string) (o Outcome) {
 var markerRe = regexp.MustCompile("\x01([0-9]+)\x02")
 
 func oracleC15() *Result {
-	r := &Result{Rule: "real printer on G-tree instances (every kind; all slots present, each slot absent, each slot alone, list lengths 0/1/3, free-floating tokens, alt-syntax statement lists, random masks): the sequence of unique markers in the output must equal the markers of the present slots in struct declaration order (separators interleaved), each exactly once; the residue must not contain marker bytes. Non-trivial = instance with >= 2 markers"}
+	r := &Result{Rule: "real printer on G-tree instances (every kind; all slots present, each slot absent, each slot alone, list lengths 0/1/3, free-floating tokens, alt-syntax statement lists, random masks): the sequence of unique markers in the output must equal the markers of the present slots in struct declaration order (separators interleaved), each exactly once; the residue must not contain marker bytes. Parsed corpus trees with one child slot replaced by another subtree of the same tree, once as the same node object and once as a copy: equal output. Non-trivial = instance with >= 2 markers / a replaced slot"}
 	rng := newRand("C15")
 	kinds := map[string]bool{}
 	for _, g := range gtreeCases(rng, opts.Tier == "thorough") {
@@ -232,6 +232,75 @@ func oracleC15() *Result {
 		}
 	}
 	r.stat("gtree_kinds", len(kinds))
+	// "a change confined to one subtree": one child slot of a parsed tree is replaced by another subtree of the
+	// SAME tree — once as the very node object (the node now sits in two slots), once as a copy of it.  What is
+	// printed may depend on the node's content, never on its identity: both outputs must be equal.
+	nshared := 0
+	for _, s := range loadCorpus() {
+		if len(s.Src) > 2500 {
+			continue
+		}
+		fam := s.Family
+		if fam == 0 {
+			fam = 7
+		}
+		maj, min := uint64(7), uint64(4)
+		if fam == 5 {
+			maj, min = 5, 6
+		}
+		po := parseSafe(s.Src, ver(maj, min), true)
+		if po.Panic != "" || po.Root == nil || len(po.Errs) > 0 {
+			continue
+		}
+		type slot struct {
+			holder ast.Vertex
+			val    reflect.Value
+		}
+		var slots []slot
+		var nodes []ast.Vertex
+		walkTree(po.Root, func(n ast.Vertex, _ int) {
+			nodes = append(nodes, n)
+			for _, f := range fieldsOf(n) {
+				if f.Sort == 3 && !f.Val.IsNil() && !isNilVertex(f.Val.Interface().(ast.Vertex)) {
+					slots = append(slots, slot{n, f.Val})
+				}
+			}
+		}, 0)
+		if len(slots) < 2 || len(nodes) < 3 {
+			continue
+		}
+		inside := func(root, x ast.Vertex) bool {
+			found := false
+			walkTree(root, func(n ast.Vertex, _ int) {
+				if n == x {
+					found = true
+				}
+			}, 0)
+			return found
+		}
+		for try := 0; try < 4; try++ {
+			sl := slots[rng.Intn(len(slots))]
+			donor := nodes[1+rng.Intn(len(nodes)-1)]
+			old := sl.val.Interface().(ast.Vertex)
+			// the donor must stay where it is (not inside the part that is replaced) and must not contain the slot
+			if inside(old, donor) || inside(donor, sl.holder) {
+				continue
+			}
+			r.Evaluations++
+			nshared++
+			sl.val.Set(reflect.ValueOf(donor))
+			shared, pan1 := printStr(po.Root)
+			sl.val.Set(reflect.ValueOf(cloneVertex(donor)))
+			copied, pan2 := printStr(po.Root)
+			sl.val.Set(reflect.ValueOf(old))
+			if pan1 != pan2 || shared != copied {
+				r.fail(Failure{Site: "shared-node:" + reflect.TypeOf(sl.holder).Elem().Name(), Kind: "tree", Input: printable(s.Src),
+					Detail: fmt.Sprintf("a %s placed in a second slot (of a %s) as the same object prints %s, as a copy %s", reflect.TypeOf(donor).Elem().Name(), reflect.TypeOf(sl.holder).Elem().Name(), strconv.QuoteToASCII(clip(shared, 160)), strconv.QuoteToASCII(clip(copied, 160)))})
+			}
+			r.DistinctNontrivial++
+		}
+	}
+	r.stat("shared_subtree_cases", nshared)
 	return r
 }
 
@@ -566,6 +635,16 @@ func oracleC16() *Result {
 	}
 	for _, s := range cfgSentences(rng) {
 		add(s, "g-cfg")
+	}
+	// values, comments and lists of a size where buffering or chunking in the dumper's output path would show
+	for _, n := range []int{1000, 4000, 4095, 4096, 4097, 5000, 8191, 8192, 8193, 20000, 70000} {
+		fill := strings.Repeat("abcdefghij klmnopq\n", n/19+1)[:n]
+		add([]byte("<h1>"+fill+"</h1>\n<?php echo 1;"), "long-value")
+		add([]byte("<?php $s = '"+strings.ReplaceAll(fill, "\n", " ")+"'; echo \"x "+strings.ReplaceAll(fill, "\n", " ")+" $y\";"), "long-value")
+		add([]byte("<?php\n/** "+strings.ReplaceAll(fill, "\n", "\n * ")+" */\nfunction f() {}\n// "+strings.ReplaceAll(fill, "\n", " ")+"\n$a = 1;"), "long-value")
+		if n <= 8193 {
+			add([]byte("<?php $a = ["+strings.Repeat("1, ", n/3)+"2];"), "long-list")
+		}
 	}
 	runOracle(r, tasks)
 	return r
